@@ -68,4 +68,31 @@ theorem wit_xi_le : wit.xi ≤ 2 / 4 := by decide +kernel
 
 theorem wit_shape : finalChecks wit (fullTrial wit.kick [2] (-1) [2, 2] 5) = (true, .ACC) := by decide +kernel
 
+/-- an accepted wire-fencing move: segment = the whole old path, one jump, backward extension -/
+def wfEx : WfIn where
+  old := [-1, 1, 2, 1, -1]
+  oldTimeOrigin := 0
+  l := 0
+  m := 1
+  r := 4
+  cap := none
+  maxlength := 12
+  nJumps := 1
+  sc := ⟨true, false⟩
+  scEns := ⟨true, false⟩
+  xiSeg := 1 / 2
+  jumps := [{ idx := 2, kick := 2, back := [1, 0], forw := [3, 5] }]
+  extBack := [-1, 0, 0, 0, 0, 0, 0, 0, 0, 0, 0, 0]
+  extForw := [0, 0, 0, 0, 0, 0, 0, 0, 0, 0, 0, 0]
+
+theorem wfEx_eval : (wireFencing .repaired wfEx).toOption = some
+    { accept := true, status := .ACC, path := [-1, 0, 1, 2, 3, 5], returnedOld := false, oldRewritten := false,
+      genSucc := 1, genLen := 6, timeOrigin := -1, draws := [.random, .integers 1 4] } := by decide +kernel
+
+/-- a rejected one: the only jump fails (kick outside the region), the old path object comes back -/
+theorem wfEx_reject_eval :
+    (wireFencing .repaired { wfEx with jumps := [{ idx := 2, kick := 7, back := [], forw := [] }] }).toOption = some
+    { accept := false, status := .NSG, path := [-1, 1, 2, 1, -1], returnedOld := true, oldRewritten := true,
+      genSucc := 0, genLen := 5, timeOrigin := 0, draws := [.random, .integers 1 4] } := by decide +kernel
+
 end Infretis.Moves
